@@ -163,8 +163,22 @@ package container
 
 //@ func container.closeOnExecFds props C06
 //@   arith int
-//@   assigns nothing
+//@   assigns FD.cloexec
+//@   ensures forall k int :: 0 <= k && k < len(s) ==> FD.cloexec[s[k]]
+//@   ensures forall d int :: old(FD.cloexec[d]) ==> FD.cloexec[d]
 //@   loop 0: invariant -1 <= rangeindex && rangeindex < len(s)
+//@   loop 0: invariant forall k int :: 0 <= k && k <= rangeindex ==> FD.cloexec[s[k]]
+//@   loop 0: invariant forall d int :: old(FD.cloexec[d]) ==> FD.cloexec[d]
+
+// C06: the container init marks EVERY descriptor it inherited close-on-exec (stdio included), so that a
+// program started later can only hold the descriptors its caller listed (assumption A-FD of the launch proof)
+//@ func container.closeOnExecAllFds props C06
+//@   arith int
+//@   assigns FD.cloexec, D.entries
+//@   ensures result == nil ==> forall k int :: 0 <= k && k < len(D.entries) ==> FD.cloexec[atoi(dename(D.entries[k]))]
+//@   loop 0: invariant -1 <= rangeindex && rangeindex < len(fds) && fds == D.entries
+//@   loop 0: invariant forall k int :: 0 <= k && k < len(fds) ==> fds[k] != nil
+//@   loop 0: invariant forall k int :: 0 <= k && k <= rangeindex ==> FD.cloexec[atoi(dename(D.entries[k]))]
 
 // every listed descriptor is closed
 //@ func container.closeFds props C12
@@ -188,7 +202,7 @@ package container
 //@   requires forall j int :: soff(msg.Fds) <= j && j < soff(msg.Fds) + len(msg.Fds) ==> 0 <= cell(msg.Fds, j) && cell(msg.Fds, j) < 2147483648
 //@   requires len(msg.Fds) < 1048576
 //@   requires cmd.Seccomp == nil || (len(cmd.Seccomp) >= 1 && len(cmd.Seccomp) <= 65535)
-//@   assigns P.st, S.cb_calls, FD.closed, W.kill_pid, W.kill_count, W.reaped, FD.handed, all(cmd.Argv), K.fdt, K.clo, K.pid, K.secbits, K.caps_empty, K.nnp, K.filter, K.filter_flags, K.uid, K.uid_set, K.gid, K.gid_set, K.groups_set, K.ngroups, K.groups_ptr, K.sid_new, K.ctty, K.cwd, K.host, K.hostlen, K.host_issued, K.domain, K.domainlen, K.domain_issued, K.clone_flags, K.clone3, K.clone_cgroup, K.mnt_src, K.mnt_type, K.mnt_flags, K.mnt_data, K.mnt_done, K.remount, K.remount_done, K.nmount, K.pivoted, K.pivot_new, K.pivot_old, K.old_detached, K.old_removed, K.rl_cur, K.rl_max, K.rl_set, K.traceme, K.stopped_self, K.sync_stage, K.sync_wfile, K.sync_rfile, K.idmap_read, K.unshare_cgroup_issued, K.last_trap, K.last_errno, K.reported, K.reported_loc, K.reported_err, K.reported_idx, K.exec_attempts
+//@   assigns P.st, S.cb_calls, FD.closed, FD.cloexec, W.kill_pid, W.kill_count, W.reaped, FD.handed, all(cmd.Argv), K.fdt, K.clo, K.pid, K.secbits, K.caps_empty, K.nnp, K.filter, K.filter_flags, K.uid, K.uid_set, K.gid, K.gid_set, K.groups_set, K.ngroups, K.groups_ptr, K.sid_new, K.ctty, K.cwd, K.host, K.hostlen, K.host_issued, K.domain, K.domainlen, K.domain_issued, K.clone_flags, K.clone3, K.clone_cgroup, K.mnt_src, K.mnt_type, K.mnt_flags, K.mnt_data, K.mnt_done, K.remount, K.remount_done, K.nmount, K.pivoted, K.pivot_new, K.pivot_old, K.old_detached, K.old_removed, K.rl_cur, K.rl_max, K.rl_set, K.traceme, K.stopped_self, K.sync_stage, K.sync_wfile, K.sync_rfile, K.idmap_read, K.unshare_cgroup_issued, K.last_trap, K.last_errno, K.reported, K.reported_loc, K.reported_err, K.reported_idx, K.exec_attempts
 //@   ensures @C10 result == nil ==> P.st == 0 || P.st == 9
 //@   ensures @C12 forall k int :: 0 <= k && k < len(msg.Fds) ==> FD.closed[msg.Fds[k]]
 //@   callsite (*Runner).Start: assert @C04 r.NoNewPrivs && r.DropCaps && r.SyncFunc == syncFunc && r.Seccomp == seccomp && r.Credential == cred
@@ -346,7 +360,7 @@ package container
 //@ func container.(*container).Open props C10 C12 C14
 //@   arith int
 //@   requires c != nil && (H.st == 0 || H.st == 9)
-//@   assigns H.st, H.batch, H.fds, FD.closed
+//@   assigns H.st, H.batch, H.fds, FD.closed, FD.cloexec
 //@   ensures @C10 H.st == 0 || H.st == 9
 //@   ensures @C14 err == nil ==> len(results) == len(p) && len(H.batch) == len(p)
 //@   ensures @C14 err == nil ==> forall i int :: 0 <= i && i < len(p) ==> (len(H.batch[i]) != 0 ==> results[i].File == nil && results[i].Err != nil)
@@ -391,7 +405,7 @@ package container
 //@   callsite Start: assert @C16 c.SysProcAttr != nil && int(c.SysProcAttr.Pdeathsig) == 9
 //@ func container.newPassCredSocketPair props C16
 //@   arith int
-//@   assigns FD.closed
+//@   assigns FD.closed, FD.cloexec
 //@   ensures result.2 == nil ==> result.0 != nil && result.0.UnixConn != nil && result.1 != nil && result.1.UnixConn != nil
 //@ func container.(*Builder).getIDMapping
 //@   trusted "builds the uid/gid mapping tables (plain data)"
